@@ -534,4 +534,16 @@ theorem STy.erase_canon : ∀ (ty : Ty), NoAnns ty → (STy.canon ty).erase = ty
   | set e a ih => intro h; obtain ⟨rfl, h2⟩ := h; simp [STy.canon, STy.erase, ih h2]
   | map k v a ihk ihv => intro h; obtain ⟨rfl, h2, h3⟩ := h; simp [STy.canon, STy.erase, ihk h2, ihv h3]
 
+/-- The evaluation fuel the actions use (`tyFuel`) is enough for the tree `TyParses` gives. -/
+theorem tyEval_of_parses (s : STy) (g rest : List Char) (t : Tree) (mid : List Char) (hmid : mid = g ++ rest ∨ mid = rest)
+    (htx : textOf t = consumed (s.render ++ (g ++ rest)) mid) (hev : ∀ k, s.depth ≤ k → evTy (k + 1) t = some s.erase) :
+    evTy (tyFuel t) t = some s.erase := by
+  have hlen : s.depth ≤ (textOf t).length + 1 := by
+    rw [htx]
+    rcases hmid with rfl | rfl
+    · rw [consumed_append]; exact Nat.le_succ_of_le s.depth_le_render
+    · rw [← List.append_assoc, consumed_append, List.length_append]
+      exact Nat.le_trans s.depth_le_render (by omega)
+  simpa [tyFuel] using hev _ hlen
+
 end FV.PegIdl
